@@ -200,7 +200,15 @@ class C05(Prop):
                 sources.append({'tag': tag, 'sid': sid, 'kind': kind, 'k': k, 'frame': fr})
                 labels = ','.join(str(tag * 100 + i) for i in range(k))
                 if a[0] == 'enq':
-                    server.send_frame(fr)
+                    # half of the elements / completions go the way the handlers send them - RSocketBase.send_payload / send_complete
+                    # (the frame built above then only serves to recognise what appears on the wire) - the rest straight into send_frame
+                    helper = kind in ('payload', 'complete') and (tag + len(case['acts'])) % 2 == 0
+                    if helper and kind == 'payload':
+                        server.send_payload(sid, Payload(body, meta), complete=cflag)
+                    elif helper:
+                        server.send_complete(sid)
+                    else:
+                        server.send_frame(fr)
                     events.append('e%d:%s' % (sid, labels))
                 else:
                     server.send_priority_frame(fr)
